@@ -80,6 +80,7 @@ def KeyInjective {F : Type} (hs : List (Hunk F)) : Prop :=
 inductive P where
   | renamifyDir    -- .renamify
   | lock           -- .renamify/renamify.lock
+  | lockTmp        -- .renamify/renamify.lock.<pid>.tmp (written, linked to the lock path, removed)
   | planFile       -- .renamify/plan.json (or --plan-out)
   | probeDir       -- .tmpXXXXXX created by TempDir::new_in(root)
   | probeFile      -- .tmpXXXXXX/test_case_a
@@ -90,6 +91,7 @@ inductive P where
 
 inductive FsOp where
   | mkdir (p : P) | openw (p : P) | write (p : P) | unlink (p : P) | rmdir (p : P) | rename (a b : P)
+  | link (a b : P)     -- link(2): `b` becomes a second name of `a`; fails (no effect) if `b` exists
   deriving DecidableEq, Repr
 
 inductive Node where
@@ -110,12 +112,14 @@ def applyOp (t : T) : FsOp → T
   | .unlink p => upd t p none
   | .rmdir p => upd t p none
   | .rename a b => upd (upd t b (t a)) a none
+  | .link a b => if t b = none then upd t b (t a) else t
 
 def exec (t : T) (prog : List FsOp) : T := prog.foldl applyOp t
 
 def written : FsOp → List P
   | .mkdir p => [p] | .openw p => [p] | .write p => [p] | .unlink p => [p] | .rmdir p => [p]
   | .rename a b => [a, b]
+  | .link _ b => [b]
 
 inductive Cmd where | plan | search | rename | replace
   deriving DecidableEq, Repr
@@ -149,14 +153,22 @@ def runsKG (gs : List Gen.DryRunGates.Gate) (cmd : Cmd) (dry : Bool) (k : Gen.Dr
 /-- … under the generated table -/
 def runsK (cmd : Cmd) (dry : Bool) (k : Gen.DryRunGates.Kind) : Bool := runsKG Gen.DryRunGates.gates cmd dry k
 
-def programG (gs : List Gen.DryRunGates.Gate) (c : Cfg) : List FsOp :=
+/-- how `LockFile::acquire` makes the lock file appear (generated: `Gen.DryRunGates.lockPublish`) -/
+def lockSteps : Gen.DryRunGates.LockPublish → List FsOp
+  | .tmpLink => [.openw .lockTmp, .write .lockTmp, .link .lockTmp .lock, .unlink .lockTmp]
+  | .createNew => [.openw .lock, .write .lock]
+
+def programGP (gs : List Gen.DryRunGates.Gate) (pub : Gen.DryRunGates.LockPublish) (c : Cfg) : List FsOp :=
   (if c.autoInit then [.openw .ignoreTmp, .write .ignoreTmp, .rename .ignoreTmp .ignoreFile] else []) ++
   (if runsKG gs c.cmd c.dryRun .lock then
-     (if c.renamifyExists then [] else [.mkdir .renamifyDir]) ++ [.openw .lock, .write .lock] else []) ++
+     (if c.renamifyExists then [] else [.mkdir .renamifyDir]) ++ lockSteps pub else []) ++
   (if c.probe && c.cmd != .replace then
      [.mkdir .probeDir, .openw .probeFile, .write .probeFile, .unlink .probeFile, .rmdir .probeDir] else []) ++
   (if runsKG gs c.cmd c.dryRun .planWrite then [.openw .planFile, .write .planFile] else []) ++
   (if runsKG gs c.cmd c.dryRun .lock then [.unlink .lock] else [])
+
+/-- … with the lock published the way the source does it today -/
+def programG (gs : List Gen.DryRunGates.Gate) (c : Cfg) : List FsOp := programGP gs Gen.DryRunGates.lockPublish c
 
 /-- the program of a command, following the gate table generated from the source -/
 def program (c : Cfg) : List FsOp := programG Gen.DryRunGates.gates c
@@ -166,11 +178,11 @@ def oldRenameGates : List Gen.DryRunGates.Gate :=
   [ { op := .rename, kind := .lock, skippedByDryRun := false, line := 0 },
     { op := .rename, kind := .apply, skippedByDryRun := true, line := 0 } ]
 
-/-- the writes the property permits: the plan file (with its directory and the transient lock) when it is not a
+/-- the writes the property permits: the plan file (with its directory, the transient lock and the lock's temp file) when it is not a
     dry run; the transient probe directory; the ignore file when auto-init adds its line -/
 def permitted (c : Cfg) : List P :=
   [.probeDir, .probeFile] ++
   (if c.autoInit then [.ignoreTmp, .ignoreFile] else []) ++
-  (if c.cmd == .plan && !c.dryRun then [.renamifyDir, .lock, .planFile] else [])
+  (if c.cmd == .plan && !c.dryRun then [.renamifyDir, .lock, .lockTmp, .planFile] else [])
 
 end Scan
